@@ -46,6 +46,8 @@ func main() {
 		replayKeys(os.Args[2:])
 	case "catalogue":
 		runCatalogue()
+	case "demo-scan-short":
+		demoScanShort()
 	case "pd":
 		runPD(seed, tier)
 	case "e2e":
